@@ -61,7 +61,7 @@ def prop_wave(case):
     if case['actrl']:
         actrl = np.array([list(case['actrl'][l % len(case['actrl'])]) for l in range(max(1, nlines))], dtype=np.int32)
 
-    def sim(klass=WaveSim, waves=None, sims=None, dl=None, ksims=None, seed=1, mode=None, per_lane=None, act=None, pre=None, owave=None, **opts):
+    def sim(klass=WaveSim, waves=None, sims=None, dl=None, ksims=None, seed=1, mode=None, per_lane=None, act=None, pre=None, owave=None, near=None, **opts):
         waves = waves or case['waves']
         sims = sims or len(waves[0])
         s = klass(c, delays if dl is None else dl, sims=sims, c_caps=opts.pop('caps', case['cap']), a_ctrl=act, **opts)
@@ -80,7 +80,8 @@ def prop_wave(case):
                 ent = [np.float32(t / W.GRID) for t in owave[0]][:cap - 1] + [W.TMAX_OVL if owave[1] else W.TMAX]
                 for lane in range(sims):
                     s.c[loc:loc + len(ent), lane] = ent
-        if T is None: s.c_to_s()
+        if near is not None: s.c_to_s(time=near, sd=1 / 64)
+        elif T is None: s.c_to_s()
         else: s.c_to_s(time=T)
         return s
 
@@ -141,6 +142,10 @@ def prop_wave(case):
         raise Violation(f'WaveSimCuda abuf {np.array(s3.abuf).tolist()} != WaveSim abuf {np.array(base.abuf).tolist()}')
     ow = ([40 + 7 * case['seed'], 12, 90, 33 + case['pptime'], 5][:(case['pptime'] % 5)], bool(case['seed'] & 1))      # 0-4 timestamps, mostly not increasing; either terminator
     same(res(sim(dl=d_alone, owave=ow)), res(sim(WaveSimCuda, dl=d_alone, owave=ow)), f'capture of a written waveform {ow}: WaveSim vs WaveSimCuda')
+    # 3d capture with an uncertain capture time: all transitions lie on the 1/8 grid, T between two grid points, sd = 1/64 - every transition is
+    # at least 4 sd away (the capture probability is within 4e-5 of 0 or 1, so no random draw is involved), and both code paths report the same
+    Tn = (case['pptime'] % 48) / 8 + 1 / 16
+    same(res(sim(dl=d_alone, near=Tn)), res(sim(WaveSimCuda, dl=d_alone, near=Tn)), f'capture at {Tn} with sd=1/64: WaveSim vs WaveSimCuda')
     s3b = sim(WaveSimCuda, dl=d_alone, c_reuse=True, strip_forks=sf)
     same(r0, res(s3b), f'WaveSimCuda(c_reuse, strip_forks={sf}) vs WaveSim plain')
     # 3b a simulator object that was used before with other stimuli behaves like a fresh one (both code paths, with memory reuse)
